@@ -566,6 +566,120 @@ impl OrdMapOwnedIter {
     }
 }
 
+/// Verification hook (compiled only with `--cfg nomt_verif`): the real [`BeatreeIterator`] over
+/// hand-built leaves, branch nodes and staging maps, driven to exhaustion the way `merkle/seek.rs`
+/// drives it (on `Blocked` the first page of `needed_leaves` is provided).
+#[cfg(nomt_verif)]
+pub mod verif {
+    use super::{BeatreeIterator, IterOutput};
+    use crate::beatree::{
+        branch::{node::get_key, BranchNode, BranchNodeBuilder},
+        index::Index,
+        leaf::node::{LeafBuilder, LeafNode},
+        ops::bit_ops,
+        Key, LeafNodeRef, ValueChange,
+    };
+    use crate::io::PagePool;
+    use imbl::OrdMap;
+    use std::sync::Arc;
+
+    /// One leaf: the separator its branch node holds for it and its (ascending) entries.
+    pub type LeafSpec = (Key, Vec<(Key, Vec<u8>)>);
+
+    fn staging(items: Vec<(Key, Option<Vec<u8>>)>) -> OrdMap<Key, ValueChange> {
+        items
+            .into_iter()
+            .map(|(k, v)| {
+                (
+                    k,
+                    match v {
+                        None => ValueChange::Delete,
+                        Some(v) => ValueChange::Insert(v),
+                    },
+                )
+            })
+            .collect()
+    }
+
+    /// `branches`: the bottom-level branch nodes in order, each a non-empty list of leaves.
+    /// Returns the items the iterator produced, the leaf numbers (position in the flattened list
+    /// of leaves) in the order they were provided, and `needed_leaves()` of the fresh iterator.
+    pub fn run_iterator(
+        primary: Vec<(Key, Option<Vec<u8>>)>,
+        secondary: Option<Vec<(Key, Option<Vec<u8>>)>>,
+        branches: Vec<Vec<LeafSpec>>,
+        start: Key,
+        end: Option<Key>,
+    ) -> Result<(Vec<(Key, Vec<u8>)>, Vec<usize>, Vec<usize>), String> {
+        let page_pool = PagePool::new();
+        const PN_BASE: u32 = 100;
+        let mut leaves: Vec<Arc<LeafNode>> = Vec::new();
+        let mut index = Index::default();
+        for branch_leaves in branches {
+            let n = branch_leaves.len();
+            let first = branch_leaves[0].0;
+            let prefix_len = if n == 1 {
+                bit_ops::separator_len(&first)
+            } else {
+                bit_ops::prefix_len(&branch_leaves[n - 1].0, &first)
+            };
+            let branch = BranchNode::new_in(&page_pool);
+            let mut builder = BranchNodeBuilder::new(branch, n, n, prefix_len);
+            for (separator, entries) in branch_leaves {
+                let pn = PN_BASE + leaves.len() as u32;
+                builder.push(separator, bit_ops::separator_len(&separator), pn);
+                let total: usize = entries.iter().map(|e| e.1.len()).sum();
+                let mut leaf = LeafBuilder::new(&page_pool, entries.len(), total);
+                for (k, v) in entries {
+                    leaf.push_cell(k, &v, false);
+                }
+                leaves.push(Arc::new(leaf.finish()));
+            }
+            let branch = Arc::new(builder.finish());
+            index.insert(get_key(&branch, 0), branch);
+        }
+
+        let mut iter = BeatreeIterator::new(
+            staging(primary),
+            secondary.map(staging),
+            index,
+            start,
+            end,
+        );
+        let needed_at_start: Vec<usize> = iter
+            .needed_leaves()
+            .map(|pn| (pn.0 - PN_BASE) as usize)
+            .collect();
+        let mut items = Vec::new();
+        let mut provided = Vec::new();
+        loop {
+            let blocked = match iter.next() {
+                None => break,
+                Some(IterOutput::Blocked) => true,
+                Some(IterOutput::Item(k, v)) => {
+                    items.push((k, v.to_vec()));
+                    false
+                }
+                Some(IterOutput::OverflowItem(..)) => return Err("overflow item".into()),
+            };
+            if blocked {
+                let Some(pn) = iter.needed_leaves().next() else {
+                    return Err("blocked without a needed leaf".into());
+                };
+                let i = (pn.0 - PN_BASE) as usize;
+                if provided.len() > leaves.len() {
+                    return Err("more leaves requested than exist".into());
+                }
+                provided.push(i);
+                iter.provide_leaf(LeafNodeRef {
+                    inner: leaves[i].clone(),
+                });
+            }
+        }
+        Ok((items, provided, needed_at_start))
+    }
+}
+
 #[cfg(test)]
 mod tests {
     use super::IterOutput;
